@@ -316,7 +316,7 @@ int main()
         g_case_id = f.count("id") ? std::stol(f["id"]) : -1;
         std::cerr << "case " << line << "\n";
         unsigned limit = f.count("limit") ? (unsigned)std::stoi(f["limit"]) : 20u;
-        alarm(limit);
+        vh::case_alarm(limit);
         struct timespec t0, t1;
         clock_gettime(CLOCK_MONOTONIC, &t0);
         std::string o = run_case(f);
